@@ -111,6 +111,12 @@ class Check:
     def finish(self, explanation, trusted_base=None, assumptions=None, exhaustive=None):
         wall = time.time() - self.t0
         dump_cover(self.pid)
+        # safety net: an out-of-range access met anywhere during the interpretation that no rule of this check reported
+        from . import conc as _conc
+        if _conc.GLOBAL_OOB and not any("out-of-range" in str(v) or "out of range" in str(v) or "beyond length" in str(v) for v in self.viol) and not self.broken:
+            o = _conc.GLOBAL_OOB[0]
+            rid = sorted(self.rules)[0] if self.rules else "R-%s-0" % self.pid
+            self.fail(rid, "out-of-range:%s" % str(o[0]).split("#")[0], o[3], "access %s[%s] of an array of length %s at %s while interpreting the code this check covers (%d such accesses)" % (o[0], o[1], o[2], o[3], len(_conc.GLOBAL_OOB)))
         from . import interp as _interp
         if _interp.COVER:
             one = sorted(k for k, v in _interp.COVER.items() if len(v) == 1)
